@@ -1,15 +1,15 @@
 #!/bin/sh
 # usage: calibrate.sh <patch file> <property id> [more property ids...]
-# applies a seeded change to /repo, runs the quick checks with --failfast, undoes the change.  One at a time only.
+# applies a seeded change to a scratch worktree of /repo's HEAD (never to /repo itself), points the quick checks at it
+# (VERIF_REPO) with --failfast, and removes the worktree again.
 P=$1; shift
-cd /repo || exit 2
-git diff --quiet || { echo "/repo working tree is not clean"; exit 2; }
-git apply "$P" || { echo "patch does not apply"; exit 2; }
+W=/tmp/calibw_$$
+git -C /repo worktree add -q --detach $W HEAD || exit 2
+( cd $W && git apply "$P" ) || { echo "patch does not apply"; git -C /repo worktree remove --force $W; exit 2; }
 for ID in "$@"; do
   S=$(date +%s)
-  OUT=$(cd /verif && ./check $ID --tier quick --failfast 2>&1 | grep -a -E "^VIOLATION|^INCONCLUSIVE|^C[0-9]+:" | head -3 | cut -c1-300)
-  RC=$?
+  OUT=$(cd /verif && VERIF_REPO=$W VERIF_WORKTAG=calib$$ ./check $ID --tier quick --failfast 2>&1 | grep -a -E "^VIOLATION|^INCONCLUSIVE|^C[0-9]+:" | head -3 | cut -c1-300)
   E=$(date +%s)
   echo "[$ID $(($E-$S))s] $OUT"
 done
-git -C /repo checkout -- .
+git -C /repo worktree remove --force $W
